@@ -6,6 +6,7 @@ import (
 	"bytes"
 	"encoding/hex"
 	"fmt"
+	"github.com/massnetorg/mass-core/consensus"
 	"math"
 	"os"
 	"runtime"
@@ -62,6 +63,8 @@ type c17query struct {
 func fmtBalance(wb *masswallet.WalletBalance) string {
 	return fmt.Sprintf("total=%d spendable=%d wstaking=%d wbinding=%d", amt(wb.Total), amt(wb.Spendable), amt(wb.WithdrawableStaking), amt(wb.WithdrawableBinding))
 }
+
+var c17builders = map[string]bool{"AutoCreateRawTransaction": true, "EstimateTxFee": true, "CreateStakingTransaction": true, "CreateBindingTransaction": true}
 
 func c17queries(t *rapid.T, w *World, m *mwallet) []c17query {
 	confs := uint32(rapid.IntRange(2, 6).Draw(t, "qconfs"))
@@ -132,6 +135,43 @@ func c17queries(t *rapid.T, w *World, m *mwallet) []c17query {
 			wm.ClearUsedUTXOMark(&mtx)
 			return "tx", &mtx, nil
 		}},
+	}
+	// the other transaction builders reach the coin selection through code paths of their own
+	decode := func(wm *masswallet.WalletManager, hexTx string, err error) (string, *wire.MsgTx, error) {
+		if err != nil {
+			return "error: " + err.Error(), nil, nil
+		}
+		raw, _ := hex.DecodeString(hexTx)
+		var mtx wire.MsgTx
+		if err := mtx.SetBytes(raw, wire.Packet); err != nil {
+			return "", nil, fmt.Errorf("undecodable transaction: %v", err)
+		}
+		wm.ClearUsedUTXOMark(&mtx)
+		return "tx", &mtx, nil
+	}
+	if len(m.issued) > 0 {
+		ia := m.issued[0]
+		stk, _ := massutil.NewAddressStakingScriptHash(ia.Hash[:], config.ChainParams)
+		holder, _ := massutil.NewAddressWitnessScriptHash(ia.Hash[:], config.ChainParams)
+		tb := make([]byte, 20)
+		tb[0], tb[19] = 0xc1, byte(len(w.journal))
+		target, _ := massutil.NewAddressPubKeyHash(tb, config.ChainParams)
+		qs = append(qs,
+			c17query{"EstimateTxFee", func(wm *masswallet.WalletManager) (string, *wire.MsgTx, error) {
+				mtx, _, err := wm.EstimateTxFee(map[string]massutil.Amount{dest.EncodeAddress(): amount}, 0, massutil.ZeroAmount(), "", "", nil)
+				if err != nil {
+					return "error: " + err.Error(), nil, nil
+				}
+				return "tx", mtx, nil
+			}},
+			c17query{"CreateStakingTransaction", func(wm *masswallet.WalletManager) (string, *wire.MsgTx, error) {
+				hexTx, _, err := wm.CreateStakingTransaction("", []*masswallet.StakingTxOut{{Address: stk.EncodeAddress(), FrozenPeriod: uint32(consensus.MinFrozenPeriod), Amount: amountOf(int64(consensus.MinStakingValue))}}, 0, massutil.ZeroAmount())
+				return decode(wm, hexTx, err)
+			}},
+			c17query{"CreateBindingTransaction", func(wm *masswallet.WalletManager) (string, *wire.MsgTx, error) {
+				hexTx, _, err := wm.CreateBindingTransaction("", massutil.ZeroAmount(), []*masswallet.BindingOutput{{Holder: holder, BindingTarget: target, Amount: amount}})
+				return decode(wm, hexTx, err)
+			}})
 	}
 	return qs
 }
@@ -314,7 +354,7 @@ func propC17a(t *rapid.T) {
 	<-me
 	adry := <-dry
 	reads := ctl.Reads()
-	if adry != refs[0] && q.name != "AutoCreateRawTransaction" {
+	if adry != refs[0] && !c17builders[q.name] {
 		t.Fatalf("HARNESS: the two instances disagree while quiet: %s gives\n%s\nvs\n%s", q.name, adry, refs[0])
 	}
 	if reads < 2 {
@@ -367,7 +407,7 @@ func propC17a(t *rapid.T) {
 		last = commits
 	}
 	ok := false
-	if q.name == "AutoCreateRawTransaction" {
+	if c17builders[q.name] {
 		if r.tx == nil {
 			// an error answer: legitimate if the reference gives the same error at one boundary
 			for k := 0; k <= last; k++ {
@@ -380,13 +420,13 @@ func propC17a(t *rapid.T) {
 				}
 			}
 			if !ok {
-				t.Fatalf("AutoCreateRawTransaction refused (%s) although the quiet instance builds a transaction at every boundary 0..%d", r.a, last)
+				t.Fatalf("%s refused (%s) although the quiet instance builds a transaction at every boundary 0..%d", q.name, r.a, last)
 			}
 		} else {
 			seen := map[wire.OutPoint]bool{}
 			for _, in := range r.tx.TxIn {
 				if seen[in.PreviousOutPoint] {
-					t.Fatalf("AutoCreateRawTransaction used input %v twice (commits inside: %d, parked before read %d)", in.PreviousOutPoint, commits, pauseAt)
+					t.Fatalf("%s used input %v twice (commits inside: %d, parked before read %d)", q.name, in.PreviousOutPoint, commits, pauseAt)
 				}
 				seen[in.PreviousOutPoint] = true
 			}
@@ -406,8 +446,8 @@ func propC17a(t *rapid.T) {
 					}
 					sb.WriteString("\n")
 				}
-				t.Fatalf("AutoCreateRawTransaction, parked before its database read #%d of %d while %d block commit(s) landed: the selected inputs are not all spendable at any single block boundary\n%s  history:\n  %s",
-					pauseAt, reads, commits, sb.String(), w.journalTail(20))
+				t.Fatalf("%s, parked before its database read #%d of %d while %d block commit(s) landed: the selected inputs are not all spendable at any single block boundary\n%s  history:\n  %s",
+					q.name, pauseAt, reads, commits, sb.String(), w.journalTail(20))
 			}
 		}
 	} else {
